@@ -284,7 +284,13 @@ func runC06(t *testing.T, seed uint64, m *Mask) *Report {
 							consumedLimit = int64(sent + opt.ReaderSize)
 						}
 					case "http":
-						write([]byte(fmt.Sprintf("POST /std/echo HTTP/1.1\r\nContent-Type: application/json\r\nContent-Length: %d\r\nX-Seq: 9\r\nX-Mtype: 1\r\n\r\n", limit*4)))
+						// announced lengths: a few times the limit, and values around the 32-bit boundary
+						cl := []uint64{uint64(limit) * 4, uint64(limit)*4 + 1, 1<<32 - 1, 1 << 32, 1<<32 + uint64(limit)/2, 1<<32 + 100, 1<<31 + 5, 1<<63 - 1}[s.a%8]
+						hdr := "Content-Type: application/json\r\n"
+						if s.b%2 == 0 {
+							hdr = "" // with and without a content type ahead of the length
+						}
+						write([]byte(fmt.Sprintf("POST /std/echo HTTP/1.1\r\n%sContent-Length: %d\r\nX-Seq: 9\r\nX-Mtype: 1\r\n\r\n", hdr, cl)))
 						if consumedLimit < 0 && inSync {
 							consumedLimit = int64(sent + opt.ReaderSize)
 						}
@@ -387,7 +393,7 @@ func runC06(t *testing.T, seed uint64, m *Mask) *Report {
 
 func bitsFor(n int) uint {
 	b := uint(0)
-	for (1 << b) < n {
+	for b < 62 && (1<<b) < n {
 		b++
 	}
 	return b
